@@ -799,3 +799,16 @@ func valueKnownNonNil(v ssa.Value) bool {
 	}
 	return knownNonNilErr(v)
 }
+
+// mentionsOf: the fields an atom speaks about (recorded when the atom was created; canonical and raw spellings).
+func (fa *Facts) mentionsOf(a string) []*types.Var {
+	if m, ok := fa.mentions[a]; ok {
+		return m
+	}
+	for k, m := range fa.mentions {
+		if canonAtom(k) == a {
+			return m
+		}
+	}
+	return nil
+}
